@@ -1,5 +1,6 @@
 import LentilVerif.Model.Plane
 import LentilVerif.Gen.PlanePx
+import LentilVerif.Gen.PlaneHandover
 /-! `Plane.multiply` / `Pupil.multiply` at the level of the whole `Wavefront` (metadata hand-over), on top of the data
 model of `Model/Plane.lean`. `_mul_pixelscale` is the *generated* definition (`Gen/PlanePx.lean`, four None-patterns).
 The plane-type check (`_can_mul_ptype`) belongs to C08 and is not modelled here. Mathlib-free. -/
@@ -24,20 +25,28 @@ def mulPixelscale (a b : Option (Int × Int)) : Except String (Option (Int × In
 
 variable {K R M : Type}
 
-/-- `Plane.multiply(wavefront)`; `phOf wavelength opd` stands for `exp(2 pi i opd / wavelength)` -/
+/-- a `Wf` from the generated hand-over record (plane types are C08's: `Unit` here) and the data -/
+def Wf.ofHandover (h : Gen.WfHandover M (Option (Int × Int)) (Option (Int × Int)) Unit) (data : List (Fld K)) : Wf K M :=
+  { wavelength := h.wavelength, focal := h.focal_length, pixelscale := h.pixelscale, shape := h.shape, data := data }
+
+def Wf.handover (w : Wf K M) : Gen.WfHandover M (Option (Int × Int)) (Option (Int × Int)) Unit :=
+  { wavelength := w.wavelength, focal_length := w.focal, pixelscale := w.pixelscale, shape := w.shape, ptype := () }
+
+/-- `Plane.multiply(wavefront)`; `phOf wavelength opd` stands for `exp(2 pi i opd / wavelength)`. Which attribute of which
+operand goes where is the *generated* `Gen.planeMultiplyHandover` / `planeMultiplyPixelscaleArgs` / `planeMultiplyShape`
+(read off `Plane.multiply`'s `lentil.Wavefront.empty(...)` call on every run). -/
 def planeMultiplyW [Zero K] [Mul K] (phOf : M → R → K) (p : PlaneM K R) (ppx : Option (Int × Int)) (w : Wf K M) :
     Except String (Wf K M) :=
-  (mulPixelscale ppx w.pixelscale).map fun px =>
-    { wavelength := w.wavelength
-      focal := w.focal
-      pixelscale := px
-      shape := match p.shape with | none => w.shape | some s => some s
-      data := planeMultiply (phOf w.wavelength) p w.data }
+  let args := Gen.planeMultiplyPixelscaleArgs ppx w.pixelscale
+  (mulPixelscale args.1 args.2).map fun px =>
+    Wf.ofHandover (Gen.planeMultiplyHandover w.wavelength px w.focal (Gen.planeMultiplyShape p.shape w.shape) ())
+      (planeMultiply (phOf w.wavelength) p w.data)
 
-/-- `Pupil.multiply(wavefront)`: as `Plane.multiply`, then the wavefront takes the pupil's focal length -/
+/-- `Pupil.multiply(wavefront)`: as `Plane.multiply`, then the generated `Gen.pupilMultiplyHandover` (the wavefront takes the
+pupil's focal length) -/
 def pupilMultiplyW [Zero K] [Mul K] (phOf : M → R → K) (p : PlaneM K R) (ppx : Option (Int × Int)) (fl : M) (w : Wf K M) :
     Except String (Wf K M) :=
-  (planeMultiplyW phOf p ppx w).map fun w' => { w' with focal := fl }
+  (planeMultiplyW phOf p ppx w).map fun w' => Wf.ofHandover (Gen.pupilMultiplyHandover w'.handover fl) w'.data
 
 /-- `Wavefront(wavelength, ...)`: one one-element field of value 1 at offset (0, 0), shape `()` -/
 def Wf.init [Zero K] (one : K) (wavelength focal : M) (px : Option (Int × Int)) : Wf K M :=
